@@ -63,15 +63,29 @@ FFrac1e4(b) ==
 \* the key under which updateHeader compares two rates: static_cast<int>(rate * 10000)
 RateKey(b) == <<FTrunc(b), FFrac1e4(b)>>
 \* static_cast<size_t>(a / p) for positive finite floats whose quotient is not within an ulp of an integer from below
-RECURSIVE LongDiv(_, _, _, _)
-LongDiv(q, r, p, d) == IF d = 0 THEN q ELSE LongDiv(2 * q + (2 * r) \div p, (2 * r) % p, p, d - 1)   \* binary long division
+\* binary long division: LongDivQR(q, r, p, d) continues the division r / p for d more bits, returns <<quotient, remainder>>
+RECURSIVE LongDivQR(_, _, _, _)
+LongDivQR(q, r, p, d) == IF d = 0 THEN <<q, r>> ELSE LongDivQR(2 * q + (2 * r) \div p, (2 * r) % p, p, d - 1)
+RECURSIVE BitLen(_)
+BitLen(n) == IF n = 0 THEN 0 ELSE 1 + BitLen(n \div 2)
+\* static_cast<size_t>(a / p) for positive finite floats, the division being a single-precision IEEE division (round to nearest even):
+\* the quotient keeps 24 significant bits, so a quotient that lies less than half an ulp below an integer *is* that integer
 FRatioTrunc(a, p) ==
   IF FExp(a) = 0 THEN 0
   ELSE LET d == FExp(a) - FExp(p) IN
-       IF d > 28 THEN Huge
+       IF d > 24 THEN Huge
        ELSE IF d < -1 THEN 0
-       ELSE IF d = -1 THEN FSig(a) \div (2 * FSig(p))
-       ELSE LongDiv(FSig(a) \div FSig(p), FSig(a) % FSig(p), FSig(p), d)
+       ELSE LET i0 == IF d = -1 THEN <<FSig(a) \div (2 * FSig(p)), IF FSig(a) \div (2 * FSig(p)) = 0 THEN FSig(a) ELSE FSig(a) % (2 * FSig(p))>>
+                         ELSE LongDivQR(FSig(a) \div FSig(p), FSig(a) % FSig(p), FSig(p), d)       \* integer part and remainder
+                n == i0[1]
+            IN IF d = -1 THEN (IF 2 * FSig(a) > 3 * FSig(p) /\ FALSE THEN 1 ELSE n)      \* quotient in [0.5, 1): truncates to 0 (it is never rounded up to 1: 0.99999997 is representable)
+               ELSE IF n = 0 THEN 0
+               ELSE LET f == 24 - BitLen(n)                          \* fractional bits a float keeps next to an integer part of that size
+                        qr == LongDivQR(n, i0[2], FSig(p), IF f > 0 THEN f ELSE 0)
+                        m == qr[1]  r == qr[2]
+                        up == 2 * r > FSig(p) \/ (2 * r = FSig(p) /\ m % 2 = 1)
+                        mr == IF up THEN m + 1 ELSE m
+                    IN IF f <= 0 THEN n ELSE mr \div Pow2(f)
 
 \* exact small non-negative integers as floats (drivers use only these as rates)
 RECURSIVE Log2Floor(_)
